@@ -6,6 +6,7 @@ func init() {
 		Subs: []Sub{
 			{Pkg: "workerpool", Harness: "pool", Weight: 3},
 			{Pkg: "workerpool", Harness: "restart", Weight: 2},
+			{Pkg: "workerpool", Harness: "restart", Config: "nowait", Weight: 2, Note: "Start is called right after Shutdown returned, without waiting for ShutdownComplete"},
 			{Pkg: "workerpool", Harness: "group", Weight: 2},
 		},
 		QuickS: 30, ThoroughS: 900,
